@@ -51,7 +51,7 @@ impl<T> Banded<T> {
     }
 }
 
-impl<T: Clone + Copy + Number + PartialOrd + Neg<Output = T>> Banded<T> {
+impl<T: Clone + Copy + Number + Signed + PartialOrd> Banded<T> {
     /// Create a new banded matrix of specified size and fill it with a constant value
     #[inline]
     pub fn new( n: usize, m1: usize, m2: usize, value: T ) -> Self {
@@ -110,8 +110,8 @@ impl<T: Clone + Copy + Number + PartialOrd + Neg<Output = T>> Banded<T> {
             let mut i = k;
             if l < self.n { l += 1; }
             for j in k + 1..l {
-                //if au[ j ][ 0 ] > dum {
-                if au[(j, 0)] > dum {
+                // The pivot is the entry of largest magnitude (not the largest signed value)
+                if au[(j, 0)].abs() > dum.abs() {
                     //dum = au[ j ][ 0 ];
                     dum = au[(j, 0)];
                     i = j;
